@@ -315,11 +315,10 @@ def pending_owner(ctx):
 
 
 
-def lmp_pending(ctx):
+def lmp_pending(ctx, rule='C06.lmp-pending'):
     """Each LMP request waits on its own, new, response future."""
     from .. import sym
     R, p = ctx.r, ctx.p
-    rule = 'C06.lmp-pending'
     fn = p.find(f'{CTRL}.send_lmp_packet')
     if fn is None:
         R.bad(rule, f'{CTRL}.send_lmp_packet', 'anchor missing')
@@ -340,7 +339,13 @@ def shared_state_rule(ctx):
     shared_state(ctx, 'C06.shared-state', ['bumble.controller', 'bumble.link'])
 
 
+def derived_index_rule(ctx):
+    from ..generic_rules import derived_index
+    derived_index(ctx, 'C06.derived-index', ['bumble.controller.Controller', 'bumble.host.Host', 'bumble.device.Device', 'bumble.link.LocalLink'])
+
+
 RULES = [
+    ('C06.derived-index', derived_index_rule),
     ('C06.shared-state', shared_state_rule),
     ('C06.lmp-pending', lmp_pending),
     ('C06.pending-owner', pending_owner),
